@@ -162,6 +162,24 @@ func recordExpr(args []string) int {
 		for i := 0; i < *n; i++ {
 			switch *mode {
 			case "arith":
+				if rng.Intn(6) == 0 {
+					// a result of at most 15 significant digits whose coefficient is padded with trailing zeros to 16-19
+					// digits (above 2^53): the float64 handed back must still be the nearest one
+					d := 8 + rng.Intn(8)
+					ds := make([]byte, d)
+					for k := range ds {
+						ds[k] = byte('0' + rng.Intn(10))
+					}
+					ds[0], ds[d-1] = byte('1'+rng.Intn(9)), byte('1'+rng.Intn(9))
+					p := 1 + rng.Intn(d-1)
+					a := string(ds[:p]) + "." + string(ds[p:])
+					z := strings.Repeat("0", 16-d+rng.Intn(4))
+					text := []string{"(" + a + " * 1." + z + ")", "(" + a + " + 0." + z + ")", "(" + a + z + " - 0)", "(" + a + " - 0." + z + "0)"}[rng.Intn(4)]
+					if !add(text, map[string]any{}, "arith:padded") {
+						return 2
+					}
+					continue
+				}
 				op := ops[rng.Intn(len(ops))]
 				k := 1
 				if rng.Intn(4) == 0 {
